@@ -606,7 +606,7 @@ func NewConfig(configFile string) (*Config, error) { // nolint: gocyclo
 	}
 
 	if v.IsSet(configTLSClientAuthzEnabled) {
-		config.TLSClientAuthz = v.GetBool(configTLSClientAuthEnabled)
+		config.TLSClientAuthz = v.GetBool(configTLSClientAuthzEnabled)
 	}
 
 	if v.IsSet(configTLSClientAuthzModel) {
